@@ -20,13 +20,14 @@
    trace/NegotiateTrace.tla.
 
    Vocabulary
-     cfg  = [las, peeras, fams, hold, ka, gr, grn]
+     cfg  = [las, peeras, fams, hold, ka, gr, grn, bulk]
               las     AS of the speaker                    peeras  configured peer-as, 0 = none
               fams    sequence of [f, ap, smax]            f \in {"v4","v6","vpn4"}, ap \in
                       {"none","recv","send","both"}; empty = no afi-safi configured
               hold    0 = not configured, -1 = configured as 0 seconds, else seconds
               ka      0 = not configured, else seconds
               gr      "off" | "on" | "llgr"                grn  notification bit (RFC 8538)
+              bulk    the speaker originates 1100 extra IPv4 routes (export probe only)
      open = [as, hold, id, params]    params: sequence of optional parameters, each a sequence of
      cap  = [c, fam, as, t, code, time, n]   c \in {"mp","as4","ap","ext","rr","gr","llgr","unk"}
                                               t = sequence of [fam, m]  (m: 1 receive, 2 send)
